@@ -125,7 +125,7 @@ pub fn def(ctx: &Ctx) -> PropertyDef {
                 (false, false, false) => vec![0, 1, 2, 3],
             },
             workers,
-            split_depth: 5,
+            split_depth: 6,
             time_cap_s: Some(if quick { 6.0 } else { 300.0 }),
             max_executions: None,
         }));
